@@ -56,8 +56,14 @@ PENDING_FINDINGS = [
              'complete under its final name with the mtime of the COPY (not of the temp file), and an entry that is '
              'open in a loader is overwritten in place: a parse older than the source is served '
              '(Lean: C18_xdev_stale_counterexample)'},
+    {'key': 'C18_fresh:source-replaced-by-a-file-carrying-an-older-mtime',
+     'what': 'freshness is inferred from "the entry was written after the source was last modified": a source that is '
+             'REPLACED by a file carrying an mtime older than the entry (installed with its build time preserved: '
+             'cp -p, install -p, meson install, tar x, a distribution package built before the last scan) leaves the '
+             'entry "fresh" and every later load returns the parse of the replaced file '
+             '(Lean: C18_fresh_older_mtime_counterexample)'},
 ]
-KEY_STAMP, KEY_EQUAL, KEY_XRAISE, KEY_XSTALE = [p['key'] for p in PENDING_FINDINGS]
+KEY_STAMP, KEY_EQUAL, KEY_XRAISE, KEY_XSTALE, KEY_OLDER = [p['key'] for p in PENDING_FINDINGS]
 
 
 class Parse(object):
@@ -463,9 +469,11 @@ class Executor(object):
         self.xdev = False
         try:
             import inspect
-            self.store_takes_mtime = len(inspect.signature(cachestore.CacheStore.store).parameters) >= 4
+            params = list(inspect.signature(cachestore.CacheStore.store).parameters)
+            self.store_takes_mtime = len(params) >= 4
+            self.store_takes_ns = self.store_takes_mtime and params[3].endswith('_ns')
         except (TypeError, ValueError):
-            self.store_takes_mtime = False
+            self.store_takes_mtime = self.store_takes_ns = False
         os.environ.pop('GI_SCANNER_DISABLE_CACHE', None)
         os.environ['XDG_CACHE_HOME'] = self.xdg
         self.saved_argv0 = sys.argv[0]
@@ -669,7 +677,8 @@ class Executor(object):
                 if op == 'store':
                     # what Transformer._parse_include does before it calls store: (observe the mtime of
                     # the source,) read it; a store that takes that mtime as third argument gets it
-                    m0 = os.stat(self.src_path).st_mtime
+                    m0 = os.stat(self.src_path)
+                    m0 = m0.st_mtime_ns if self.store_takes_ns else m0.st_mtime
                     parse = Parse(self.read_source(), sver, pid)
                     if self.store_takes_mtime:
                         fn = (lambda cs=cs, parse=parse, m0=m0: cs.store(self.src_path, parse, m0))
@@ -712,6 +721,14 @@ class Executor(object):
                     self.clock += 1
                 self.ver += 1
                 self.src_mtimes[self.ver] = self.clock
+                self.write_source()
+                self.mods_at.append(idx)
+                self.mod_version[idx] = self.ver
+            elif kind == 'replace':
+                # the source is replaced by a file that carries the mtime e[1] (not the current time)
+                self.trace.append('-')
+                self.ver += 1
+                self.src_mtimes[self.ver] = e[1]
                 self.write_source()
                 self.mods_at.append(idx)
                 self.mod_version[idx] = self.ver
@@ -868,11 +885,14 @@ def oracle(ctx, cnt, case, obs):
                               and st.copy_open_idx is not None
                               and any(st.copy_open_idx < i and (st.copystat_idx is None or i < st.copystat_idx)
                                       for i, _l in w.steps))
-        if read_m is not None and read_m < src_mtimes[w.v_start]:
+        # (the source's mtime is not monotone when a version is installed with a preserved older mtime: the
+        # entry must not be older than EVERY version of the source that was current during the load)
+        youngest_allowed = min(src_mtimes[v] for v in range(w.v_start, w.v_end + 1))
+        if read_m is not None and read_m < youngest_allowed:
             cnt.hit('oracle:older-than-source')
             ctx.report_failure(KEY_XSTALE if in_copy_window else key_case, 'load of process %d used an entry with mtime %d older than its source '
-                               '(mtime %d when the load began); schedule %s init %s'
-                               % (pid, read_m, src_mtimes[w.v_start], json.dumps(evs), json.dumps(init)), replay)
+                               '(mtime >= %d throughout the load); schedule %s init %s'
+                               % (pid, read_m, youngest_allowed, json.dumps(evs), json.dumps(init)), replay)
             continue
         # --- scanner version: an entry from before a completed purge by another version
         bad_purge = False
@@ -914,11 +934,18 @@ def oracle(ctx, cnt, case, obs):
             # (2) cross-device copy by the unchanged shutil.move: read between open-truncate and copystat
             elif in_copy_window:
                 cls = KEY_XSTALE
+        if cls is None and read_m is not None and any(
+                evs[m][0] == 'replace' and r.data < obs['_mod_version'][m] <= w.v_end
+                and src_mtimes[obs['_mod_version'][m]] <= read_m
+                and (st is None or st.dump_done is None or m > st.dump_done) for m in mods_at):
+            # (3) after the entry was complete the source was replaced by a file that carries an mtime
+            #     not later than the entry's
+            cls = KEY_OLDER
         if cls is None and read_m is not None and r.data + 1 in src_mtimes and read_m == src_mtimes[r.data + 1] \
                 and any(evs[m] == ['modify', False] and obs['_mod_version'][m] == r.data + 1 for m in mods_at) \
                 and (st is None or st.dump_done is None or
                      all(m > st.dump_done for m in mods_at if obs['_mod_version'][m] == r.data + 1)):
-            # (3) a modification WITHOUT a clock tick after the entry was stamped: equal timestamps
+            # (4) a modification WITHOUT a clock tick after the entry was stamped: equal timestamps
             cls = KEY_EQUAL
         what = ('load of process %d returned parse(v%d) but the source versions current during the load were '
                 'v%d..v%d; schedule %s init %s' % (pid, r.data, w.v_start, w.v_end, json.dumps(evs),
@@ -981,7 +1008,10 @@ def random_case(rng):
             live.append(o[0])
         elif mods and r < 0.33:
             mods -= 1
-            evs.append(['modify', rng.random() < 0.8])
+            if rng.random() < 0.15:
+                evs.append(['replace', rng.choice([1, 4, 6, 9, 12])])
+            else:
+                evs.append(['modify', rng.random() < 0.8])
         elif r < 0.38:
             evs.append(['tick'])
         elif crashes and live and r < 0.42:
@@ -1067,7 +1097,8 @@ def sampled_case(rng, name, ops, mods, crashes):
         evs.append(seqs[i][pos[i]])
         pos[i] += 1
     for _ in range(mods):
-        evs.insert(rng.randint(0, len(evs)), ['modify', rng.random() < 0.85])
+        evs.insert(rng.randint(0, len(evs)), ['replace', rng.choice([1, 4, 6, 9, 12])] if rng.random() < 0.1
+                   else ['modify', rng.random() < 0.85])
     if crashes and rng.random() < 0.5:
         pid = rng.choice(ops)[0]
         first = [i for i, e in enumerate(evs) if e[0] == 'spawn' and e[1] == pid][0]
@@ -1193,6 +1224,9 @@ def _run_chunk(ctx, ex, cnt, cases, state):
         for _pid, st in a['procs']:
             cnt.hit('outcome:' + st['status'] + (':value' if st.get('ret') else ''))
         cnt.hit('hist_ok:%s' % m['hist_ok'])
+        for kind in set(e[0] if e[0] != 'modify' else 'modify:%s' % ('tick' if e[1] else 'same-granule')
+                        for e in c['evs'] if e[0] in ('modify', 'replace', 'crash')):
+            cnt.hit('case-with:' + kind)
         if a != b:
             state['disagree'] += 1
             if state['disagree'] <= 3:
@@ -1320,7 +1354,8 @@ def run(ctx):
         'distinct_nontrivial': cnt.n_distinct(),
         'rule': 'a case = initial cache state (empty / fresh / stale / torn / equal-mtime / unstamped entry) + a '
                 'schedule of events (spawn store|load|check with a scanner version, one system call of a process, '
-                'crash of a process, source modification with or without a clock tick, tick). Exhaustive part: all '
+                'crash of a process, source modification with or without a clock tick, replacement of the source by a '
+                'file carrying a given (older) mtime, tick). Exhaustive part: all '
                 'maximal interleavings enumerated by the model for the listed scenarios, each followed by a '
                 'sequential observer load; random part: up to three concurrent operations + a late load. Every case '
                 'is executed on the real CacheStore under the controlled scheduler and by the Lean step function, '
@@ -1352,8 +1387,8 @@ def run(ctx):
         'pickle.dump is two write steps',
         'pickle: a complete serialisation unpickles, a strict prefix never does (checked on every torn file the '
         'executor produces)',
-        'the source file exists throughout; its mtime is the time of its last modification (a source replaced by a '
-        'file with an OLDER mtime is outside the model)',
+        'the source file exists throughout; its mtime is either the time of its last modification (event modify) or '
+        'a time the new file carries with it (event replace, e.g. an installed file with its build time preserved)',
         'mtimes are set from a logical clock with os.utime; real timestamp granularity enters only through the '
         'modify-without-tick event',
         'ENOSPC / EACCES branches of store and _check_cache_version are not exercised',
